@@ -4,11 +4,17 @@
                                               reference algebra (lib/HolTerms.tla) satisfies them on every operation vector of the universe
     spec/C03_TermEmit.tla                     emits the vectors (spec -> code)
  I  spec/C03_Heap.tla                         identity tokens on a heap with address reuse, as coded (constant CopyReowns probed from the code)
+ S/I spec/C03_Share.tla                       heap of term NODES with sharing, hash memo and in-place type instantiation: reference ("ref"),
+                                              as coded ("coded": one instantiation per visit, memo of visited nodes only) and "once";
+                                              invariants InstOnce / WellTypedInv / HashFresh; emits the explored histories as vectors
+ T  spec/C03_ShareTrace.tla                   the histories performed on real Term objects with the same sharing (clauses InstOnce,
+                                              TypePreserved, HashFresh, EqIsStructural)
  T  spec/C03_TermTrace.tla                    the SAME laws evaluated on results of kernel/term.py; ==/hash/fast_compare clauses
     spec/C03_HeapTrace.tla                    recorded histories of creation / Term(t) / garbage collection / address reuse; EqCorrect at every ==
 """
 import copy
 import json
+from concurrent.futures import ThreadPoolExecutor
 
 from harness.core import (MachineryError, model_check, read_events, require, run_driver, seed, selftest_trace,
                           spec_mutant, validate_trace, work_dir, tlc)
@@ -23,7 +29,8 @@ def run(rep, tier):
                 "loose-bound arguments, abstract_over, subst_type, subst/subst_norm with type and term instantiations); each is performed on "
                 "real terms built with fresh and with shared sub-objects. Non-trivial = the operation returned and its denotation law was "
                 "evaluated in all finite models (|tyvar|<=2), or an ==/hash/order event was judged; distinct by full event content. "
-                "Heap: seeded histories with directed address reuse." % (2 if quick else 3))
+                "Heap: seeded histories with directed address reuse. Sharing: every history of C03_Share (<= 5 node objects built over "
+                "existing objects, <= 1 hash, one in-place type instantiation incl. non-idempotent and variable-swapping ones) on real objects." % (2 if quick else 3))
     rep.assumptions = ["finite standard models with |tyvar| <= 2", "TLC/SANY, structural codec, CPython allocator behaviour only for *realising* address reuse (never for a verdict)"]
     # ---- design level: the reference algebra satisfies the laws on every vector
     r = model_check("C03_TermAlgebra", "C03_TermAlgebra_%s.cfg" % sfx, wd=wd / "mc", workers=4, timeout=7200)
@@ -60,6 +67,8 @@ def run(rep, tier):
         rm = tlc("C03_Heap", "C03_Heap_copytok.cfg", wd=wd / "mc2", workers=4)
         require("EqCorrect" in rm.violated, "C03_Heap: the copy-keeps-token model must violate EqCorrect (oracle non-vacuity)")
         rep.notes.setdefault("spec_mutants", []).append({"mutant": "heap_copy_keeps_token", "caught_by": ["EqCorrect"]})
+    # ---- sharing: heap of term nodes, hash memo, in-place type instantiation
+    share(rep, wd, probe)
     # ---- spec -> code, code -> spec
     ops, eq, heap = wd / "ops.ndjson", wd / "eq.ndjson", wd / "heap.ndjson"
     run_driver("c03", ["ops", vec, ops])
@@ -98,6 +107,55 @@ def run(rep, tier):
             "C03: too few examined events (vacuity guard)")
 
 
+def share(rep, wd, probe):
+    """C03_Share: the reference machine must satisfy InstOnce / WellTypedInv / HashFresh; the as-coded machines must violate them
+    (oracle non-vacuity); the machine the code IS (probed) is recorded; then every emitted history is performed on real objects."""
+    with ThreadPoolExecutor(max_workers=3) as ex:
+        fr = ex.submit(model_check, "C03_Share", "C03_Share_ref.cfg", wd=wd / "mc_share_ref", workers=2)
+        fc = ex.submit(tlc, "C03_Share", "C03_Share_coded.cfg", wd=wd / "mc_share_coded", workers=1)
+        fo = ex.submit(tlc, "C03_Share", "C03_Share_once.cfg", wd=wd / "mc_share_once", workers=1)
+        r, rc, ro = fr.result(), fc.result(), fo.result()
+    rep.add_mc("C03_Share", r, "ref: MaxObj=4 MaxHash=1 MaxInplace=1 NLeaves=3")
+    if r.violated:
+        rep.design_violation("C03_Share", r)
+        return
+    require("InstOnce" in rc.violated, "C03_Share: the visit-per-path machine must violate InstOnce (oracle non-vacuity); TLC said %s %s" % (rc.violated, rc.error))
+    require("HashFresh" in ro.violated, "C03_Share: the machine that deletes only the memos of visited nodes must violate HashFresh; TLC said %s %s" % (ro.violated, ro.error))
+    rep.notes.setdefault("spec_mutants", []).append({"mutant": "share_instantiate_per_visit", "caught_by": ["InstOnce"]})
+    rep.notes.setdefault("spec_mutants", []).append({"mutant": "share_memo_of_visited_only", "caught_by": ["HashFresh"]})
+    mode = "coded" if not probe.get("inst_once") else ("once" if not probe.get("parents_invalidated") else "ref")
+    rep.notes["share_model"] = {"machine_of_the_code": mode, "violated": {"ref": r.violated, "coded": rc.violated, "once": ro.violated}[mode]}
+    svec, sev = wd / "share_vectors.ndjson", wd / "share.ndjson"
+    re_ = model_check("C03_Share", "C03_Share_emit.cfg", wd=wd / "mc_share_emit", workers=1, env={"VECTOR_FILE": svec})
+    rep.add_mc("C03_Share(emit)", re_, "MaxObj=5 MaxHash=1 MaxInplace=1 NLeaves=4, canonical order, hist in the state")
+    require(svec.exists(), "C03_Share wrote no vectors")
+    rep.notes["share_vectors"] = sum(1 for _ in open(svec))
+    run_driver("c03", ["share", svec, sev])
+    evs = read_events(sev)
+    v = validate_trace("C03_ShareTrace", sev, wd=wd / "tv_share", nchunks=1)
+    rep.add_trace_result("share", evs, v)
+    require(len(v["nontrivial"]) >= 3000, "C03 share: too few examined events (vacuity guard)")
+    # binding self-tests: an object left un-instantiated / a hash comparison flipped must be rejected
+    bad = []
+    for e in evs:
+        if e["kind"] == "sact" and e["outcome"] == "ok" and len(bad) < 2:
+            root = e["hist"][-1]["o"] - 1
+            if e["post"][root] != e["pre"][root]:
+                c = copy.deepcopy(e)
+                c["post"][root] = c["pre"][root]
+                c["tid"] = 10 ** 7 + 20 + len(bad)
+                bad.append(c)
+    selftest_trace(rep, "C03_ShareTrace", bad, "InstOnce", wd=wd)
+    bad = []
+    for e in evs:
+        if e["kind"] == "sobs" and e["outcome"] == "ok" and e["group"] == "own" and all(e["eq"]) and all(e["heq"]) and len(bad) < 2:
+            c = copy.deepcopy(e)
+            c["heq"][-1] = False
+            c["tid"] = 10 ** 7 + 30 + len(bad)
+            bad.append(c)
+    selftest_trace(rep, "C03_ShareTrace", bad, "HashFresh", wd=wd)
+
+
 def replay(path):
     from harness.core import write_events
     obj = json.load(open(path))
@@ -113,6 +171,10 @@ def replay(path):
         write_events(wd / "vec.ndjson", [vec])
         run_driver("c03", ["ops", wd / "vec.ndjson", wd / "ev.ndjson"])
         v = validate_trace("C03_TermTrace", wd / "ev.ndjson", wd=wd / "tv", cfg="C03_TermTrace_small.cfg", nchunks=1)
+    elif e.get("kind") in ("sact", "sobs"):
+        write_events(wd / "vec.ndjson", [{"hist": e["hist"], "nobj": e["nobj"], "foreign": e["foreign"]}])
+        run_driver("c03", ["share", wd / "vec.ndjson", wd / "ev.ndjson"])
+        v = validate_trace("C03_ShareTrace", wd / "ev.ndjson", wd=wd / "tv", nchunks=1)
     elif e.get("kind") == "heap":
         run_driver("c03", ["heap", wd / "ev.ndjson", 300, seed()])
         v = validate_trace("C03_HeapTrace", wd / "ev.ndjson", wd=wd / "tv", nchunks=1)
